@@ -17,6 +17,16 @@ SIM_NOTE = ("Trusted base: the simulated kernel / psutil.Popen fake "
             "EPERM, job-control stops. Search never proves absence.")
 
 TABLE = {
+ "C10": dict(
+  engine="E1-simworld", category="exploration", design_ref="DESIGN.md §4 C10",
+  technique="enumeration of request pairs (A x B x every progress point of A) plus Hypothesis-generated request histories; oracle = replies on the recording stream, synchronous snapshot of kernel logs around refused requests, exclusive probe after quiescence",
+  text=("Each exclusive command A (long, failing synchronously or "
+        "asynchronously) is overlapped by each exclusive command B and by the "
+        "periodic check at every timer step of A; B must be refused "
+        "(conflict or validation error) without effect while A is parked, A "
+        "must get exactly one reply, and an exclusive probe must be accepted "
+        "once the daemon is quiescent."),
+  note=SIM_NOTE + " 'In flight' is decided conservatively from outside (A unanswered before and after B at the same instant)."),
  "C05": dict(
   engine="E1-simworld", category="exploration", design_ref="DESIGN.md §4 C05",
   technique="property-based testing of overlapping request histories on a virtual clock: blocked-time meter on the patched time.sleep, synchronous-reply oracle for read-only requests, and a model-computed virtual-time bound that turns 'every request completes' into a safety check",
